@@ -20,7 +20,10 @@ def run(rep, tier, seed, replay):
                        "received messages (per-peer order exact, cross-peer order not observable)",
                        "internal events DC/DU/ST/E/F and the Z/Y check events are reconstructed by the harness from private "
                        "snapshots of RequestList buckets, Delegator, FileList bitfield (-fno-access-control, read only)",
-                       "modelled not verified: choke_queue decisions for the download side (m_down_choke), throttle, m_down_stall "
+                       "liveness layer (xaccept): m_down_interested and download-choke-queue membership are predicted from the events and "
+                       "compared with the library in every Z snapshot; LI/QC/QU events are reconstructed from snapshot differences; the four "
+                       "repairs are source-extracted flags (fixes_present_now)",
+                       "modelled not verified: choke_queue unchoke decisions for the download side (m_down_choke.choked), throttle, m_down_stall "
                        "heuristics of should_request, ChunkSelector's rarity order / random position (the acceptor admits any "
                        "choice inside the delegate relation), hashing (conforming peers: hash always succeeds), timers (observed)",
                        "python wire-level oracle gen/c04.py:oracle evaluated on the implementation's output"]))
